@@ -44,6 +44,7 @@ def _c18(v, b, tier):
     n = 90 * SIZES[tier]
     disp_checks.check_c18(v, b.t1_summary, n, 14 if tier == "quick" else 40)
     copyopt_checks.copyopt_battery(v, "C18", 80 * SIZES[tier])
+    copyopt_checks.copy_engine_battery(v, "C18")
 
 
 def default_summary():
@@ -147,11 +148,14 @@ def _conv(prop, base):
             litenum_checks.litenum_battery(v, prop, 40 * SIZES[tier])
         if prop in ("C01", "C03"):
             overrides_checks.namedtuple_battery(v, prop, 10 * SIZES[tier])
+        if prop == "C01":
+            overrides_checks.user_built_pair_battery(v)
         if prop == "C03":
             copyopt_checks.copyopt_battery(v, prop, 60 * SIZES[tier])
             overrides_checks.overrides_battery(v, 32)
         if prop == "C06":
             tpl_checks.key_modes_classes(v, v.coverage.setdefault("key_modes", {}))
+            copyopt_checks.copy_engine_battery(v, "C06")
     return run
 
 
@@ -174,7 +178,7 @@ REGISTRY = {
     "C06": {"props_file": "Props/C06.v", "files": CORE_CONV + ["Proofs/UnstructProofs.v", "Proofs/ClassRoundtrip.v", "Proofs/ConvSound.v", "Proofs/ConvRoundtrip.v", "Proofs/ConvAgree.v", "Proofs/ConvMono.v", "Proofs/ConvUnAgree.v", "Proofs/ConvCfg.v", "Props/C06.v"],
             "run": _conv("C06", 40), "rule": RULE_CONV, "t1_sections": T1_CONV},
     "C05": {"props_file": "Props/C05.v", "files": CORE_CONV + ["Model/ConvErr.v", "Proofs/ConvErrProofs.v", "Proofs/ConvErrGlobal.v", "Proofs/ConvCfg.v", "Props/C05.v"],
-            "run": (lambda v, b, tier: (hooks_checks.check_hooks(v, b.t1_summary), err_checks.check_c05(v, b.t1_summary, 60 * SIZES[tier]))), "t1_sections": T1_CONV,
+            "run": (lambda v, b, tier: (hooks_checks.check_hooks(v, b.t1_summary), err_checks.check_c05(v, b.t1_summary, 60 * SIZES[tier]), overrides_checks.initfalse_fault_battery(v))), "t1_sections": T1_CONV,
             "rule": "worlds as in the CONV lane plus TypedDicts (25% of the classes); per world 3 target types (a class, or a class inside list / mapping / tuple / Optional), "
                     "per type 3 valid payloads (the unstructured form of a generated value); into each payload k in {0,1,1,2,2,3,4,6} independent faults are injected at random "
                     "positions of any depth: a leaf its type cannot accept (int/float/bytes/enum/literal positions), a required key removed, an extra key (when forbid_extra_keys is on); "
